@@ -206,6 +206,12 @@ func (d *Driver) yield(instanceID, site string) {
 		}
 		return
 	}
+	if site == "callbackTurn:unlocked" {
+		// between the library's last ordering action for a callback and the first instruction of
+		// the callback itself no implementation can prevent a preemption; the order of callback
+		// entries is observed as the library issues the calls
+		return
+	}
 	if site == "handleGracePeriodExpired" && instanceID == "" {
 		// The grace-expiry handler is about to take its mutex and read which notification its
 		// timer belongs to: observation for C11, recorded when the goroutine actually proceeds
